@@ -70,6 +70,33 @@ def candidates (screen : List Plate) (ids : List Nat) : List Plate :=
 def eligibleOf (k : Nat) (screen : List Plate) (ids : List Nat) : Except Err (List Plate) :=
   filterEligible k (batchPlates screen ids) (candidates screen ids)
 
+/-! ### the batch ids as they arrive (glue of `select_next_plate`) -/
+
+/-- `[plate for plate in screen.plates if plate.plate_id in batch_plate_ids]` with the ids as the caller hands them over:
+    Python ints, among them possibly `-1`, the "no plate" placeholder that the `select_next_plate` command writes.  The code
+    applies NO filter: a placeholder simply matches no plate. -/
+def batchPlatesRaw (screen : List Plate) (ids : List Int) : List Plate :=
+  screen.filter (fun p => ids.contains (p.id : Int))
+
+/-- `[... if not plate.is_observed and plate.plate_id not in batch_plate_ids]`, sorted by plate id -/
+def candidatesRaw (screen : List Plate) (ids : List Int) : List Plate :=
+  (screen.filter (fun p => !p.observed && !ids.contains (p.id : Int))).mergeSort (fun a b => decide (a.id ≤ b.id))
+
+/-- what the membership tests amount to: the ids `≥ 0` -- plate id 0 included -- as plate ids; only placeholders drop out -/
+def batchFilter (ids : List Int) : List Nat := (ids.filter (fun i => decide (0 ≤ i))).map Int.toNat
+
+/-- `select_next_plate` up to the choice of the best score: the policy applied to (batch plates, remaining unobserved plates
+    outside the batch), both computed from the raw id list -/
+def selectNext (k : Nat) (screen : List Plate) (ids : List Int) : Except Err (List Plate) :=
+  filterEligible k (batchPlatesRaw screen ids) (candidatesRaw screen ids)
+
+/-- REGRESSION DEFINITION (seeded change S7-C16, not the code in /repo): the placeholder filter written with `> 0`
+    (`batch_plate_ids = [i for i in batch_plate_ids if i > 0]`) before the two lists are built -/
+def batchFilterGt (ids : List Int) : List Int := ids.filter (fun i => decide (0 < i))
+
+def selectNextGt (k : Nat) (screen : List Plate) (ids : List Int) : Except Err (List Plate) :=
+  selectNext k screen (batchFilterGt ids)
+
 /-! ### rounds -/
 
 /-- `Screen.set_observed` applied to the rows of the plates of a finished batch: those plates become observed, nothing else
